@@ -36,11 +36,16 @@ ONLY = {'BaseException': BaseException, 'Exception': Exception, 'B': B, 'S': S, 
 # 'Cancel': the awaitable ends with a CancelledError of its own (e.g. it awaited something that somebody else
 # cancelled) while nobody cancels the caller - for gather_excs this is a failure like any other BaseException
 # 'G' / 'BG': the awaitable fails with an exception *group* (a TaskGroup inside it, say): the group is what was raised
-OUTCOMES = [None, 'B', 'S', 'Un', 'H', 'Cancel', 'G', 'BG']
+# 'SAI' / 'TO' / 'KE': builtin classes with a meaning of their own elsewhere (StopAsyncIteration ends async iteration,
+# TimeoutError is what asyncio's timeouts raise, KeyError is what look-ups raise): here they are failures like any other
+OUTCOMES = [None, 'B', 'S', 'Un', 'H', 'Cancel', 'G', 'BG', 'SAI', 'TO', 'KE']
+BUILTIN = {'SAI': StopAsyncIteration, 'TO': TimeoutError, 'KE': KeyError}
 ONLY['ExceptionGroup'] = ExceptionGroup
 # 'done': a future that is already settled (result or exception) when gather_excs is called
 KINDS = ['coro', 'task', 'future', 'done']
 ONLY['CancelledError'] = aio.CancelledError
+ONLY['StopAsyncIteration'] = StopAsyncIteration
+ONLY['LookupError'] = LookupError
 
 
 class C20(Check):
@@ -120,6 +125,8 @@ class C20(Check):
                             return ExceptionGroup(f'group {i} {which}', [S(i, 'leaf'), Un(i, 'leaf')])
                         if name == 'BG':
                             return BaseExceptionGroup(f'bgroup {i} {which}', [H(i, 'leaf'), B(i, 'leaf')])
+                        if name in BUILTIN:
+                            return BUILTIN[name](i, which)
                         return HIER[name](i, which)
                     excs = [mk(i, o) for i, o in enumerate(case['out'])]
 
